@@ -26,6 +26,7 @@ import (
 
 	ds "github.com/ipfs/go-datastore"
 	dssync "github.com/ipfs/go-datastore/sync"
+	log "github.com/ipfs/go-log/v2"
 	"github.com/libp2p/go-libp2p/core/peer"
 	ma "github.com/multiformats/go-multiaddr"
 	mh "github.com/multiformats/go-multihash"
@@ -706,6 +707,115 @@ func c17CoqTrace(evs []c17Ev) (string, int) {
 	return "[" + strings.Join(out, ";\n ") + "]", len(out)
 }
 
+// ---- layer 3: schedule arithmetic and schedule trie against their transcription ---------------
+func c17RandBits(r *vfRand, n int) string {
+	var b strings.Builder
+	for i := 0; i < n; i++ {
+		if r.Bool() {
+			b.WriteByte('1')
+		} else {
+			b.WriteByte('0')
+		}
+	}
+	return b.String()
+}
+
+// c17SchedCase runs reprovideTimeForPrefix, timeBetween and a sequence of
+// schedulePrefixNoLock calls of the real code on generated inputs.
+func c17SchedCase(t *testing.T, r *vfRand, i int) (term string, desc map[string]any, sig string, fail string) {
+	defer func() {
+		if e := recover(); e != nil {
+			fail = fmt.Sprint(e)
+		}
+	}()
+	// interval in ns: minutes to a day, sometimes tiny (fewer units than slots)
+	var interval time.Duration
+	switch r.Intn(4) {
+	case 0:
+		interval = time.Duration(1+r.Intn(1000)) * time.Nanosecond
+	case 1:
+		interval = time.Duration(1+r.Intn(600)) * time.Second
+	default:
+		interval = time.Duration(1+r.Intn(1440)) * time.Minute
+	}
+	var ob [32]byte
+	for j := range ob {
+		ob[j] = byte(r.Uint64())
+	}
+	order := bit256.NewKeyFromArray(ob)
+	orderBits := key.BitString(order)[:32]
+	var out []string
+	synctest.Test(t, func(t *testing.T) {
+		prov := &SweepingProvider{
+			order:             order,
+			reprovideInterval: interval,
+			maxReprovideDelay: interval / 4,
+			cycleStart:        time.Now(),
+			schedule:          trie.New[bitstr.Key, time.Duration](),
+			scheduleTimer:     time.NewTimer(time.Hour),
+			logger:            log.Logger("c17"),
+		}
+		defer prov.scheduleTimer.Stop()
+		time.Sleep(time.Duration(r.Intn(int(3*interval)) + 1))
+		// reprovideTimeForPrefix
+		var it []string
+		np := 4 + r.Intn(12)
+		maxLen := []int{3, 8, 16, 30}[r.Intn(4)]
+		for j := 0; j < np; j++ {
+			p := c17RandBits(r, r.Intn(maxLen+1))
+			if interval > time.Hour && len(p) > 16 {
+				p = p[:16] // beyond, int64(interval)*val overflows (documented guard of the theorems)
+			}
+			d := prov.reprovideTimeForPrefix(bitstr.Key(p))
+			it = append(it, fmt.Sprintf("(%s, %d)", vfBits(p), int64(d)))
+		}
+		// timeBetween
+		var tb []string
+		for j := 0; j < 6; j++ {
+			from := time.Duration(r.Intn(int(interval)))
+			to := time.Duration(r.Intn(int(interval)))
+			if j == 0 {
+				to = from
+			}
+			tb = append(tb, fmt.Sprintf("(%d, %d, %d)", int64(from), int64(to), int64(prov.timeBetween(from, to))))
+		}
+		// schedulePrefixNoLock: which prefixes end up scheduled, with which offsets
+		var adds []string
+		na := 1 + r.Intn(10)
+		al := 1 + r.Intn(5)
+		for j := 0; j < na; j++ {
+			p := c17RandBits(r, r.Intn(al+1))
+			prov.scheduleLk.Lock()
+			prov.schedulePrefixNoLock(bitstr.Key(p), r.Bool())
+			prov.scheduleLk.Unlock()
+			adds = append(adds, vfBits(p))
+		}
+		var ents []string
+		var keys []string
+		for e := range keyspace.EntriesIter(prov.schedule, bit256.ZeroKey()) {
+			keys = append(keys, string(e.Key))
+		}
+		sort.Strings(keys)
+		for _, k := range keys {
+			_, d := trie.Find(prov.schedule, bitstr.Key(k))
+			ents = append(ents, fmt.Sprintf("(%s, %d)", vfBits(k), int64(d)))
+		}
+		out = []string{vfList(it), vfList(tb), vfList(adds), vfList(ents)}
+		if len(keys) < na {
+			sig = "sched|absorbed"
+		} else {
+			sig = "sched|all"
+		}
+		sig += fmt.Sprintf("|len=%d|n=%d", maxLen, na/3)
+	})
+	if out == nil {
+		out = []string{"[]", "[]", "[]", "[]"}
+	}
+	term = fmt.Sprintf("CSched %d %s %s %s %s %s %s", int64(interval), vfBits(orderBits), out[0], out[1], out[2], out[3], vfBool(fail != ""))
+	desc = map[string]any{"case": i, "kind": "sched", "interval_ns": int64(interval), "order": orderBits, "fail": fail}
+	return term, desc, sig, fail
+}
+
 func TestVerifC17(t *testing.T) {
 	seed := vfSeed()
 	n := vfEnvInt("VERIF_N", 20)
@@ -717,6 +827,17 @@ func TestVerifC17(t *testing.T) {
 		if only >= 0 && i != only {
 			continue
 		}
+		if i%4 == 3 {
+			term, desc, sig, fail := c17SchedCase(t, r, i)
+			desc["seed"] = seed
+			cs.Count("kind:sched", 1)
+			idx := cs.Add(term, desc, sig)
+			if fail != "" {
+				cs.Fail(idx, "panic in the schedule functions", fail)
+			}
+			continue
+		}
+		cs.Count("kind:trace", 1)
 		size := 0
 		if vfThorough() {
 			size = []int{0, 1, 1, 2}[i%4]
